@@ -174,11 +174,13 @@ PROPS["C15"] = dict(
     explanation="PROVED: one ARBITRARY turn of EventSource.parseEvents as a generator under contract (contracts/c15_events.py; pending id/name and a list of data lines of any length arbitrary at the head of the turn; parseLine by callee contract with eols (CRLF, LF, CR)): a wait changes nothing; an empty line dispatches -- JOIN of the data lines, exactly one event {id, name, data} iff data is non-empty (parsed JSON when dictable), then name and data reset, id kept; comment lines change nothing; event/data/id/retry fields update exactly their slot with the value minus ONE leading space, data appended as the LAST line; unknown fields ignored; no event is queued except by a dispatch; the run ends only after the dispatch on a closed connection. parseLine step contracts with eols=(CRLF, LF, CR) (earliest-terminator and prefix-stability clauses: both are recorded findings on this tree). Event dispatch against an SSE reference "
                 "written from the ABNF, plain and chunked transport, all line-terminator mixes, fragmentations: bounded natively. " + HTTP_NOTE)
 PROPS["C16"] = dict(
-    contracts=["contracts.http_parse", "contracts.c17_chunk", "contracts.c13_body", "contracts.c13_leader"], harness="harness.http_native:C16", level="other", trusted_base=HTTP_EXT,
-    explanation="parseLine PROVED to raise only LineTooLong (an HTTPException) and only beyond the limit. Everything above it: near-valid and mutated byte strings through Server.service, "
+    contracts=["contracts.http_parse", "contracts.c17_chunk", "contracts.c13_body", "contracts.c13_leader", "contracts.c16_bare", "contracts.c15_events"], harness="harness.http_native:C16", level="other", trusted_base=HTTP_EXT,
+    explanation="parseLine PROVED to raise only LineTooLong (an HTTPException) and only beyond the limit, on any turn after any history. BareServer.serviceStewards PROVED (<= 2 connections): "
+                "whatever Requestant.parse does (raises HTTPException, ends errored, ends clean, not finished) the loop does not raise; an errored request is never handed to "
+                "Steward.respond, its connection is closed once and removed; a complete request is answered exactly once (contracts/c16_bare.py). Everything above: near-valid and mutated byte strings through Server.service, "
                 "BareServer.service and http Client.service on fake sockets with a second, healthy connection that must still be served: bounded natively. " + HTTP_NOTE)
 PROPS["C14"] = dict(
-    contracts=["contracts.c14_request"], harness="harness.http_native:C14", level="other",
+    contracts=["contracts.c14_request", "contracts.c14_qargs"], harness="harness.http_native:C14", level="other",
     technique="contract-based deductive verification (pyvc) of the server side (Requestant.parseHead as a generator under contract, Server.buildEnviron); bounded runtime "
               "contract (round trip Requester.build -> Requestant.parse -> Server.buildEnviron) for the client-side builder and the urllib/json/str.format chains",
     trusted_base=["EXT: httping.parseLine / parseLeader as incremental parsers (None until complete, then the line / header block), httping.parseRequestLine splits the start "
@@ -321,13 +323,16 @@ PROPS["C23"] = dict(
                 "BOUNDED: random sequences (<= 7) of push/pull/extend/update/remove/clear over 4 values with duplicates on durable Durq and Dusq with a real LMDB store, close + "
                 "reopen and resync of a FRESH queue object at random positions; after every operation the cache and the durable copy must equal the model.")
 PROPS["C24"] = dict(
-    contracts=["contracts.c24_suffix", "contracts.c24_subers"], harness="harness.durable_native:C24", level="other",
+    contracts=["contracts.c24_suffix", "contracts.c24_subers", "contracts.c24_scans"], harness="harness.durable_native:C24", level="other",
     technique="contract-based deductive verification (pyvc, cvc5 for the word equation) of the io-key encoding Duror.suffix / unsuffix; bounded model-based runtime check against "
               "dict-of-value / list / ordered-set models with a real LMDB store for every store operation",
     trusted_base=["EXT: b'%032x' % ion is HEX32(ion): 32 characters without '.', int(HEX32(i), 16) == i; bytes.rsplit(sep, 1) splits at the rightmost separator; "
                   "everything inside LMDB (cursor order, set_range, delete) is outside the verifier's reach"],
-    assumptions=["only the key encoding is under contract; put/pin/add/get/pop/rem/cnt over cursors and the non-interference between keys are decided by the bounded tier only"],
-    explanation="PROVED: IoSuber and IoSetSuber delegate every add/put/pin/pop/rem/cnt to the matching list- or set-operation of the database, exactly once, on their own sub-database and key, every value serialized in order, the answer returned unchanged (contracts/c24_subers.py). PROVED for any key bytes (also keys containing or ending with the separator, or looking like another key's io-key) and any ordinal: suffix(key, ion) == key ++ '.' ++ "
+    assumptions=["the cursor scans getIoValFirst / getIoVals / popIoVal / remIoVals are under contract for <= 3 stored entries (symbolic content, cursor start arbitrary: bounded, not "
+                 "counted as proved); the add/put/pin scans and that LMDB's key order makes a key's entries contiguous are decided by the native bounded tier only"],
+    explanation="BOUNDED-SYMBOLIC (contracts/c24_scans.py, <= 3 entries with arbitrary io-keys and values, cursor landing anywhere): getIoValFirst / getIoVals / popIoVal / remIoVals read, "
+                "return and delete exactly the run of consecutive entries from the cursor whose unsuffixed key IS the requested key -- no entry of another key is ever returned or deleted. "
+                "PROVED: IoSuber and IoSetSuber delegate every add/put/pin/pop/rem/cnt to the matching list- or set-operation of the database, exactly once, on their own sub-database and key, every value serialized in order, the answer returned unchanged (contracts/c24_subers.py). PROVED for any key bytes (also keys containing or ending with the separator, or looking like another key's io-key) and any ordinal: suffix(key, ion) == key ++ '.' ++ "
                 "32 hex digits; unsuffix(suffix(key, ion)) == (key, ion); the encoding is injective, so io-keys of different (key, ordinal) pairs never collide. "
                 "BOUNDED: random sequences (<= 9) of put/pin/add/get/pop/rem/cnt on Suber, IoSuber, IoSetSuber over adversarial key sets (prefixes of each other, keys containing the "
                 "separator, keys that look like another key's io-key) with a real LMDB store; after every operation EVERY key of the set is read back and compared with the model "
@@ -338,13 +343,17 @@ PROPS["C28"] = dict(
     explanation="Bounded stand-in only: generated registered data objects (flat, nested one and two levels, RawDom) with fields from the common representable domain, three codecs, classes "
                 "defined in modules with and without `from __future__ import annotations`, and malformed messages injected mid-run (state surviving between conversions).")
 PROPS["C29"] = dict(
-    contracts=["contracts.c29_filer"], harness="harness.c29", level="other",
-    technique="contract-based deductive verification (pyvc) of Filer._clearPath / close / reopen with the file system as uninterpreted predicates; bounded runtime precondition "
+    contracts=["contracts.c29_filer", "contracts.c29_remake"], harness="harness.c29", level="other",
+    technique="contract-based deductive verification (pyvc) of Filer.remake / _clearPath / close / reopen with the file system and os.path as uninterpreted functions; bounded runtime precondition "
               "on every filesystem call of the real Filer (inside the head directory) in a throw-away sandbox for remake and whole life cycles",
     trusted_base=["os.path.exists / isfile arbitrary predicates of the path string, os.path.split = (DIRNAME, BASENAME) uninterpreted, os.remove / shutil.rmtree / ocfn logged; "
                   "Filer.remake summarised (returns some path and file) inside the reopen contract"],
-    assumptions=["that remake's path (head/tail/base/name) lies inside the head directory is NOT under contract: bounded tier (the '..' finding lives there)"],
-    explanation="PROVED (symbolic paths and flags): _clearPath deletes nothing without an existing path and otherwise exactly the file at .path (plus, only for a temp resource, its "
+    assumptions=["os.path fact used but not proved: abspath(join(h, t, b, n)) lies under h for relative b, n without `..` segments (sampled on a real file system by the bounded tier)"],
+    explanation="PROVED (symbolic name, base, directories; all 16 temp/clean/filed/extensioned combinations): Filer.remake refuses an absolute or `..`-containing name or base with "
+                "FilerError before ANY file system call; otherwise every makedirs / ocfn / chmod / remove / rmtree is given the remade path P or its directory, P being "
+                "abspath(join(tmp, tail, base, name')) for the directory mkdtemp just made (temp) or abspath(expanduser(join(head | althead, tail | alttail, base, name'))) (clean tail iff "
+                "clean, name' with the extension added when filed/extensioned and missing); returns such a P and, if any, the file opened at exactly P (contracts/c29_remake.py). "
+                "PROVED (symbolic paths and flags): _clearPath deletes nothing without an existing path and otherwise exactly the file at .path (plus, only for a temp resource, its "
                 "own directory) or the directory tree at .path -- no other path ever reaches a deleting call; close clears iff asked, after flushing and closing the file; reopen "
                 "first closes/clears the resource AS IT IS (old path, old temp flag) and only then applies the overrides and re-makes from the instance's own name and base, so a "
                 "reopen can only delete what the Filer held before. BOUNDED: all combinations of temp, clean, filed, extensioned x names/bases incl. dotted and `..` segments "
